@@ -97,13 +97,22 @@ pub fn run(toks: &[&str]) -> Option<String> {
     if fb.len() != nb || fd.len() != nd { return Some("send-failed".to_string()); }
 
     // nonce reuse is visible on the wire: equal key streams <=> c_i ^ c_j == p_i ^ p_j
+    // (hashed on the first 8 bytes of c ^ p, so that sessions of 100 000 frames can be examined: counters that wrap or
+    // fail to carry only repeat after 2^7, 2^8, 2^15, 2^16 frames)
     let mut reuse = false;
+    let mut seen: std::collections::HashMap<[u8; 8], usize> = std::collections::HashMap::new();
     let plains: Vec<(Vec<u8>, &Vec<u8>)> = (0..nb).map(|i| (bincode::serialize(&cmd(i)).unwrap(), &fb[i]))
         .chain((0..nd).map(|i| (bincode::serialize(&resp(i)).unwrap(), &fd[i]))).collect();
-    for i in 0..plains.len() { for j in i + 1..plains.len() {
-        let n = plains[i].0.len().min(plains[j].0.len());
-        if n >= 8 && (0..n).all(|k| plains[i].1[k] ^ plains[j].1[k] == plains[i].0[k] ^ plains[j].0[k]) { reuse = true; }
-    } }
+    for i in 0..plains.len() {
+        let n = plains[i].0.len().min(plains[i].1.len());
+        if n < 8 { continue; }
+        let mut ks = [0u8; 8];
+        for k in 0..8 { ks[k] = plains[i].1[k] ^ plains[i].0[k]; }
+        if let Some(&j) = seen.get(&ks) {
+            let m = n.min(plains[j].0.len()).min(plains[j].1.len());
+            if (0..m).all(|k| plains[i].1[k] ^ plains[j].1[k] == plains[i].0[k] ^ plains[j].0[k]) { reuse = true; }
+        } else { seen.insert(ks, i); }
+    }
 
     let wd = build(&to_doer, &fb, &fd)?;
     let wb = build(&to_boss, &fb, &fd)?;
